@@ -866,6 +866,7 @@ class Extract:
     closures: list = field(default_factory=list)   # (ordinal, retdecl, ensures)
     entry: list = field(default_factory=list)      # proof/ghost text inserted at function entry
     exit_: list = field(default_factory=list)      # proof text appended at the end of a ()-returning body
+    indexcalls: list = field(default_factory=list)  # R7: `recv[expr]` (read position) -> `recv.method(expr)`
     fallback: list = field(default_factory=list)   # text emitted instead when the item no longer exists
     tmpl_line: int = 0
     rename: str = ""
@@ -963,6 +964,9 @@ def parse_template(text):
         if mm:
             ins = ["fallback", "", 1, mm.group(1)]
             cur.fallback.append(ins); last = ("insert", ins); i += 1; continue
+        mm = re.match(r'^indexcall\s+"((?:[^"\\]|\\.)*)"\s*=>\s*"(\w+)"\s*$', body)
+        if mm:
+            cur.indexcalls.append((_unesc(mm.group(1)), mm.group(2))); i += 1; continue
         mm = re.match(r"^exit\s*:\s?(.*)$", body)
         if mm:
             ins = ["exit", "", 1, mm.group(1)]
@@ -1485,6 +1489,32 @@ def _build_fn(sf: SourceFile, item: Item, impl, ex: Extract, props, rep, unit, a
         body_toks[len(body_toks) - 1:len(body_toks) - 1] = [T("raw", "\n" + semi + "\n".join(e[3] for e in ex.exit_) + "\n")]
     if ex.entry:
         body_toks[1:1] = [T("raw", "\n" + "\n".join(e[3] for e in ex.entry) + "\n")]
+
+    # 2b. R7 index rewriting: `recv[expr]` in read position -> `recv.method(expr)` (Index impls cannot carry a precondition)
+    for (recv, method) in ex.indexcalls:
+        pat = pat_tokens(recv)
+        n_rw = 0
+        while True:
+            hits = _find_seq_any(body_toks, pat)
+            done = True
+            for (a0, b0) in hits:
+                nx = _next_sig(body_toks, b0)
+                if nx < len(body_toks) and body_toks[nx].kind == PUNCT and body_toks[nx].text == "[":
+                    cl = match_close(body_toks, nx)
+                    after = _next_sig(body_toks, cl)
+                    # not an assignment target, not a range slice
+                    if after < len(body_toks) and body_toks[after].text == "=" and body_toks[_next_sig(body_toks, after)].text != "=":
+                        continue
+                    inner = text_of(body_toks[nx + 1:cl])
+                    if ".." in inner:
+                        continue
+                    body_toks[nx:cl + 1] = [T("raw", f".{method}({inner})")]
+                    n_rw += 1; done = False
+                    break
+            if done:
+                break
+        if n_rw:
+            rep.append(("R7", f"`{recv}[i]` -> `{recv}.{method}(i)` x{n_rw}"))
 
     # 3. explicit replaces
     for (scope, old, new, expect) in ex.replaces:
